@@ -45,6 +45,15 @@ def ppar_parts(quick):
             for d in ("enc", "dec"):
                 out += ["ppar_%s_%s_%s_%d" % (c, be, d, sz) for sz in sizes]
     return out
+# SIMD CTR encryption functionally, vector block function as a procedure call (WholeCtrVec.v / WholeCtrVecModel.v):
+# (request size, offset) relative to the batch of L blocks
+def vctr_parts(quick):
+    out = []
+    for c, be, BSZ in (("c128", "v128", 64), ("c128", "v256", 128), ("c64", "v128", 64), ("mc", "v128", 64)):
+        if quick: cfgs = [(BSZ + 6, 5)] if be != "v256" else [(BSZ + 2, BSZ)]
+        else: cfgs = [(0, BSZ), (1, BSZ), (1, 0), (BSZ - 1, 1), (BSZ, BSZ), (BSZ + 1, BSZ), (BSZ + 6, 5), (2 * BSZ, BSZ), (2 * BSZ + 3, BSZ - 1), (5, BSZ - 5), (7, 9)]
+        out += ["vctr_%s_%s_%d_%d" % (c, be, sz, off) for sz, off in cfgs]
+    return out
 def key_parts(w, quick):
     bs = 16 if w == "128" else 8
     fam = "key" + w
